@@ -1,0 +1,62 @@
+//go:build verif
+
+/*
+ Licensed to the Apache Software Foundation (ASF) under one
+ or more contributor license agreements.  See the NOTICE file
+ distributed with this work for additional information
+ regarding copyright ownership.  The ASF licenses this file
+ to you under the Apache License, Version 2.0 (the
+ "License"); you may not use this file except in compliance
+ with the License.  You may obtain a copy of the License at
+
+     http://www.apache.org/licenses/LICENSE-2.0
+
+ Unless required by applicable law or agreed to in writing, software
+ distributed under the License is distributed on an "AS IS" BASIS,
+ WITHOUT WARRANTIES OR CONDITIONS OF ANY KIND, either express or implied.
+ See the License for the specific language governing permissions and
+ limitations under the License.
+*/
+
+package events
+
+import (
+	"github.com/apache/yunikorn-scheduler-interface/lib/go/si"
+)
+
+// Verification hooks (build tag "verif" only): give an external harness access to the
+// unexported ring buffer, event store and streaming objects. Nothing here changes behaviour.
+
+type VerifRing struct{ r *eventRingBuffer }
+
+func VerifNewRing(capacity uint64) *VerifRing { return &VerifRing{r: newEventRingBuffer(capacity)} }
+func (v *VerifRing) Add(ev *si.EventRecord)   { v.r.Add(ev) }
+func (v *VerifRing) Resize(n uint64)          { v.r.Resize(n) }
+func (v *VerifRing) GetEventsFromID(id, count uint64) ([]*si.EventRecord, uint64, uint64) {
+	return v.r.GetEventsFromID(id, count)
+}
+func (v *VerifRing) GetRecentEvents(count uint64) []*si.EventRecord {
+	return v.r.GetRecentEvents(count)
+}
+func (v *VerifRing) GetLastEventID() uint64 { return v.r.GetLastEventID() }
+
+// VerifState exposes the raw fields: capacity, head, id, lowestId, resizeOffset, full.
+func (v *VerifRing) VerifState() (uint64, uint64, uint64, uint64, uint64, bool) {
+	v.r.RLock()
+	defer v.r.RUnlock()
+	return v.r.capacity, v.r.head, v.r.id, v.r.lowestId, v.r.resizeOffset, v.r.full
+}
+
+func VerifNewStore(size uint64) *EventStore { return newEventStore(size) }
+
+func VerifNewStreaming(v *VerifRing) *EventStreaming { return NewEventStreaming(v.r) }
+
+// VerifStreamYield, when set, is called by CreateEventStream between the registration of the
+// stream and the read of the history, so that a harness can place event publications there.
+var VerifStreamYield func()
+
+func verifStreamYield() {
+	if VerifStreamYield != nil {
+		VerifStreamYield()
+	}
+}
